@@ -44,4 +44,8 @@ def run(ctx, rep):
     # B10: the passing mode a binding declares (const, shared / raw pointer, reference) is the declared one: every rebuilt Type forwards
     # each qualifier of the original to the parameter of the same name (= C02/S4)
     rep.run(RI.rule_qualifier_forwarding, ctx, rep, "B10", min_sites=3)
+    # B11: keyword names and default-value text of an instantiated declaration are the declared ones: every rebuilt Argument forwards
+    # name and default unchanged, and nothing rewrites a spelling at substring level (= C02/S5, S3)
+    rep.run(RI.rule_name_default_forwarding, ctx, rep, "B11")
+    rep.run(RI.rule_whole_identifier, ctx, rep, "B11", exclude={"instantiate_name"})
     rep.run(RF.rule_locals_defined, ctx, rep, "U1", packages=("gtwrap/pybind_wrapper.py",), min_functions=3)
